@@ -379,7 +379,7 @@ Section F.
   Lemma handle_input_sent fuel : forall st i acc st' evs,
     handle_input fuel st i acc = Ok (st', evs) ->
     forall x x', nth_error (dm_clients st) i = Some x -> nth_error (dm_clients st') i = Some x' ->
-      dc_sent x' = dc_sent x /\ dc_eof x' = dc_eof x /\ dc_bad x' = dc_bad x.
+      dc_sent x' = dc_sent x /\ dc_eof x' = dc_eof x /\ (dc_bad x = true -> dc_bad x' = true).
   Proof.
     induction fuel as [|f IH]; intros st i acc st' evs; cbn [Daemon.handle_input].
     - intros H x x' Hx Hx'. inversion H; subst. rewrite Hx in Hx'. inversion Hx'; auto.
@@ -392,7 +392,8 @@ Section F.
       match type of H with Daemon.handle_input _ _ _ _ _ ?s _ _ = _ =>
         assert (Hm : nth_error (dm_clients s) i = Some (set_dc c' (mkDcli (dc x) rest (dc_to x) (dc_nl x) (S (dc_lines x)) (dc_eof x) (dc_bad x) (dc_sent x))))
           by (cbn [dm_clients]; exact (nth_error_upd_nth_eq _ _ _ _ En)) end.
-      destruct (IH _ _ _ _ _ H _ _ Hm Hx') as (A & B & C). cbn [set_dc dc_sent dc_eof dc_bad] in *. auto.
+      destruct (IH _ _ _ _ _ H _ _ Hm Hx') as (A & B & C). cbn [set_dc dc_sent dc_eof dc_bad] in *. split; [exact A|]. split; [exact B|].
+      intros Hb. apply C. rewrite Hb. reflexivity.
   Qed.
 
   Lemma cli_one_sent st i ci st' evs dead x x' :
